@@ -4,7 +4,7 @@ import json, sys
 CLAIMED = {
  "C01": ("generated extreme operands (64-bit boundaries, long multi-byte strings, numeric-string traps), wild documents, enumerated and generated 126-deep documents on a 2 MiB stack, all public js_op helpers, the real CLI (dev + release) and the Python extension (dev + release), libFuzzer corpus replay (campaign in the thorough tier), in overflow-checked and release profiles; oracle = no panic / abort / stack overflow / death of the worker, at most 20 s of CPU for a case the reference model finds cheap, result is Ok or Err and serialises", "proptest generated-input search + libFuzzer corpus replay; oracle = catch_unwind, worker exit status, CPU watchdog"),
  "C02": ("generated non-operation values (near-miss keys, multi-key and all-operator-key objects, poison inside literals, literals nested beyond 128 levels, objects keyed by 150 names a new operator would plausibly get or made of an operation plus an annotation member) must come back identical at top level and as returned operands of or / and / if / defaults / reduce / map; per-operator dispatch discriminated against the reference model", "proptest; oracle = identity law + reference-model differential"),
- "C03": ("complete 35 x 7 arity grid x 8 operand variants, operand counts up to 65539, wrong-arity operations in every evaluated position; bracket-less law {op:x} == {op:[x]} on a grid and generated", "proptest + enumerated grid; oracle = documented arity table, metamorphic bracket law"),
+ "C03": ("complete 35 x 7 arity grid x 8 operand variants, operand counts up to 65539, wrong-arity operations in every evaluated position; bracket-less law {op:x} == {op:[x]} on a grid and generated, at the top of a rule and in eleven evaluated positions", "proptest + enumerated grid; oracle = documented arity table, metamorphic bracket law"),
  "C04": ("operation-shaped data routed through every value-carrying path; single-pass reference model on value and log trace; substitution law for eager operators; tagged-log evaluation counts", "proptest; oracle = reference-model differential + metamorphic substitution law"),
  "C05": ("generated if/?:/and/or operand lists with poisoned operands; exact value and exact log-order against the model; ?: == if; CLI leg", "proptest; oracle = reference model (value + exact trace), alias law"),
  "C06": ("corner values x 3 routes x 11 truthiness positions enumerated, plus generated values; all positions must agree with the table transcribed from the statement", "proptest + enumerated matrix; oracle = truthiness table"),
@@ -20,7 +20,7 @@ CLAIMED = {
  "C16": ("all strings up to length 3 over a mixed-width alphabet x start/length -5..5 enumerated, generated strings with 64-bit extremes; char-vector model, split law substr(s,0,i)++substr(s,i)==s, cat piecewise law; positions beyond the signed 64-bit range give an error or the clamped slice; strings of 2^8 / 2^12 / 2^16 (+-1) characters; replay of the distilled libFuzzer corpus of fz_str (campaign in the thorough tier)", "proptest + enumerated cube + libFuzzer; oracle = character-vector model + metamorphic laws"),
  "C17": ("generated call histories (pools of rules and data, repeats, clones, concurrent batches on shared values, reversed re-run) in a never-reset worker process, log storms from 4-8 threads, deep rules evaluated by up to 16 threads at once, sequences of freshly parsed and freed same-length inputs, comparison with a fresh process, and a fresh process under a hostile environment (every ALL-CAPS identifier of the binary set, other locale / time zone / directory): every call equals its isolated result and the model, inputs unchanged, stdout exactly the intact log lines, stderr empty", "proptest over histories (vec of ops + interpreter); oracle = isolation / determinism invariants + reference model"),
  "C18": ("generated rule/data texts (valid, invalid, log, leading minus, whitespace) x three data channels against the in-process library; exit codes, stdout lines, chaining; working directory holding files named like the arguments; standard output on a pseudo-terminal", "proptest driving the real binary; oracle = in-process library differential"),
- "C19": ("Hypothesis-generated JSON-representable Python objects (big ints, nan / inf, astral text, lone surrogates, long strings), both entry points, all combinations of omitted / supplied optional arguments, malformed texts, in-interpreter histories over ==-equal scalars, dev and release builds of the extension; against the library linked into an oracle server, type- and sign-strict; the caller's objects must be unchanged after a call; calls repeated with every ALL-CAPS identifier of the module set in os.environ", "Hypothesis; oracle = library differential via oracle server, exception-type contract"),
+ "C19": ("Hypothesis-generated JSON-representable Python objects (big ints, nan / inf, astral text, lone surrogates, long strings, dictionaries with int / float / bool / None keys of mixed types), both entry points, all combinations of omitted / supplied optional arguments, malformed texts, in-interpreter histories over ==-equal scalars, dev and release builds of the extension; against the library linked into an oracle server, type- and sign-strict; the caller's objects must be unchanged after a call; calls repeated with every ALL-CAPS identifier of the module set in os.environ", "Hypothesis; oracle = library differential via oracle server, exception-type contract"),
 }
 DONE = sys.argv[1:]  # property ids implemented so far
 checks=[]; na=[]
